@@ -151,7 +151,7 @@ def templates(rng):
   """-> (name, source, expectation) ; expectation: list of (input, 'return'|'raise')"""
   w = rng.choice([1, 2, 4, 8, 16, 33, 64])
   n = rng.randrange(3, 14)
-  t = rng.randrange(11)
+  t = rng.randrange(12)
   H = HDR.format(w=w) + FL_HDR
   if t == 0:   # monotone, convergent
     body = f"""    s.a = InPort({w}); s.b = InPort({w}); s.x = Wire({w}); s.y = Wire({w})
@@ -240,6 +240,21 @@ def templates(rng):
     m = (1 << w) - 1
     exp = [({"a": rng.choice([0, 1, 2]) & m, "k": rng.choice([0, 1, 4 & m, rng.getrandbits(w)])}, "any") for _ in range(4)]
     return "struct-fields-with-prefix-names", Hq + FL_HDR, body, exp
+  if t == 11:  # one edge of the cycle carries TWO signals of different kinds (x whole / y written as slice, read whole); the loop needs
+    # a further sweep in which only y changed; an upstream block makes the cycle start at the reader
+    body = f"""    s.a = InPort({w}); s.b = InPort({w}); s.pre = Wire({w}); s.x = Wire({w}); s.y = Wire({2 * w}); s.t = Wire({w}); s.z = Wire({w})
+    @update
+    def up_pre(): s.pre @= s.b
+    @update
+    def up1():
+      s.x @= s.b
+      s.y[0:{w}] @= s.z | s.a
+    @update
+    def up2(): s.t @= (trunc(s.y, {w}) ^ (s.x ^ s.x)) | (s.pre & 0)
+    @update
+    def up3(): s.z @= s.t"""
+    return "edge-with-two-signals-of-different-kinds", H, body, [({"a": 1, "b": 0}, "return"), ({"a": rng.getrandbits(w) | 1, "b": 0}, "return"),
+                                                               ({"a": (1 << w) - 1, "b": 0}, "return"), ({"a": 0, "b": 1}, "return")]
   # t == 8: saturating min chain (convergent after several iterations)
   body = f"""    s.a = InPort({w}); s.x = Wire({w}); s.y = Wire({w})
     @update
